@@ -5,6 +5,7 @@ package engine
 import (
 	"context"
 	"fmt"
+	hypershiftv1beta1 "package-operator.run/internal/controllers/hostedclusters/hypershift/v1beta1"
 	"runtime/debug"
 	"sort"
 
@@ -63,6 +64,8 @@ func Kinds() []kubesim.KindInfo {
 		ks = append(ks, kubesim.KindInfo{GVK: pkoGVK(k), Namespaced: true, HasStatus: true, Generation: true})
 		ks = append(ks, kubesim.KindInfo{GVK: pkoGVK("Cluster" + k), Namespaced: false, HasStatus: true, Generation: true})
 	}
+	// HyperShift's HostedCluster: only read, by the environment sink, to tell which namespace belongs to which hosted cluster
+	ks = append(ks, kubesim.KindInfo{GVK: GVKHostedCluster, Namespaced: true, HasStatus: true, Generation: true})
 	ks = append(ks, kubesim.KindInfo{GVK: pkoGVK("ObjectSlice"), Namespaced: true, Generation: true})
 	ks = append(ks, kubesim.KindInfo{GVK: pkoGVK("ClusterObjectSlice"), Namespaced: false, Generation: true})
 	return ks
@@ -74,8 +77,12 @@ func NewScheme() *runtime.Scheme {
 	_ = corev1.AddToScheme(s)
 	_ = corev1alpha1.AddToScheme(s)
 	_ = manifestsv1alpha1.AddToScheme(s)
+	_ = hypershiftv1beta1.AddToScheme(s)
 	return s
 }
+
+// GVKHostedCluster is HyperShift's HostedCluster kind.
+var GVKHostedCluster = schema.GroupVersionKind{Group: "hypershift.openshift.io", Version: "v1beta1", Kind: "HostedCluster"}
 
 // DynCache models PKO's dynamic cache contract over the store: refuses unwatched kinds,
 // serves label-selected fresh reads, tracks owners per kind.
